@@ -94,18 +94,38 @@ func C20(blk *hist.Block) []Finding {
 	}
 	pBase, pPer := onsOptions(blk.Prev)
 	cBase, cPer := onsOptions(blk.Cur)
-	bases := []*big.Int{pBase, cBase}
-	pers := []*big.Int{pPer, cPer}
+	// the options change when a passed configuration proposal is finalised: by a PROPOSAL_FINALIZE
+	// transaction of the block, or by the block-end hook after every transaction. A transaction delivered
+	// before that point is priced with the previous block's options; only later ones may see the new ones.
+	finIdx := len(blk.Txs)
+	for i, t := range blk.Txs {
+		if t.Kind == "PROPOSAL_FINALIZE" && t.Call.Code == 0 && i < finIdx {
+			finIdx = i
+		}
+	}
+	basesAt := func(idx int) []*big.Int {
+		if idx < finIdx {
+			return []*big.Int{pBase}
+		}
+		return []*big.Int{pBase, cBase}
+	}
+	persAt := func(idx int) []*big.Int {
+		if idx < finIdx {
+			return []*big.Int{pPer}
+		}
+		return []*big.Int{pPer, cPer}
+	}
 	// successful transactions per name
 	type ev struct {
 		kind   string
 		signer string
 		p      map[string]interface{}
+		idx    int
 	}
 	evs := map[string][]ev{}
 	signedOrTouched := map[string]int{}
 	var payloads []string
-	for _, t := range blk.Txs {
+	for ti, t := range blk.Txs {
 		if t.Call.Code != 0 {
 			continue
 		}
@@ -124,7 +144,7 @@ func C20(blk *hist.Block) []Finding {
 		if len(t.Signers) > 0 {
 			s = t.Signers[0]
 		}
-		evs[n] = append(evs[n], ev{t.Kind, s, p})
+		evs[n] = append(evs[n], ev{t.Kind, s, p, ti})
 		if t.Kind == "DOMAIN_SEND" {
 			if d := prev[n]; d != nil {
 				signedOrTouched[d.Beneficiary]++
@@ -185,8 +205,8 @@ func C20(blk *hist.Block) []Finding {
 				}
 			} else {
 				ok := false
-				for _, b := range bases {
-					for _, pp := range pers {
+				for _, b := range basesAt(c.idx) {
+					for _, pp := range persAt(c.idx) {
 						ext := floorDiv(new(big.Int).Sub(price, b), pp)
 						if ext >= 0 && (cd.Expire == blk.H-1+ext || cd.Expire == blk.H+ext) {
 							ok = true
@@ -262,7 +282,7 @@ func C20(blk *hist.Block) []Finding {
 						}
 					}
 					ok := false
-					for _, pp := range pers {
+					for _, pp := range persAt(buy.idx) {
 						ext := floorDiv(new(big.Int).Sub(offering, pd.Price()), pp)
 						for _, from := range []int64{pd.Expire, blk.H - 1, blk.H} {
 							if ext >= 0 && cd.Expire == from+ext && from >= pd.Expire-0 {
@@ -275,7 +295,7 @@ func C20(blk *hist.Block) []Finding {
 					}
 				} else if maybeExpired {
 					okPay := false
-					for _, b := range bases {
+					for _, b := range basesAt(buy.idx) {
 						if offering.Cmp(b) >= 0 {
 							okPay = true
 						}
@@ -284,8 +304,8 @@ func C20(blk *hist.Block) []Finding {
 						out = append(out, Finding{"C20", "C20/purchase/expired-below-base-price", fmt.Sprintf("block %d: expired name %s bought for %s, the base price is %s", blk.H, n, offering, pBase)})
 					}
 					ok := false
-					for _, b := range bases {
-						for _, pp := range pers {
+					for _, b := range basesAt(buy.idx) {
+						for _, pp := range persAt(buy.idx) {
 							ext := floorDiv(new(big.Int).Sub(offering, b), pp)
 							if ext >= 0 && (cd.Expire == blk.H-1+ext || cd.Expire == blk.H+ext) {
 								ok = true
@@ -297,6 +317,19 @@ func C20(blk *hist.Block) []Finding {
 					}
 				} else {
 					out = append(out, Finding{"C20", "C20/purchase/not-for-sale-not-expired", fmt.Sprintf("block %d: %s bought %s although it is neither on sale nor expired (expiry %d)", blk.H, buyer, n, pd.Expire)})
+				}
+				// the new owner has not listed the name: unless it signed a sale itself in this block, the
+				// record it receives is not on sale (sale status changes only by the current owner's signature)
+				if cd.OnSale && cd.Owner == buyer {
+					listedByBuyer := false
+					for _, e := range evs[n] {
+						if e.kind == "DOMAIN_SELL" && e.signer == buyer {
+							listedByBuyer = true
+						}
+					}
+					if !listedByBuyer {
+						out = append(out, Finding{"C20", "C20/purchase/still-on-sale", fmt.Sprintf("block %d: %s was bought by %s and is still listed for sale at %s, the previous owner's asking price", blk.H, n, buyer, cd.Price())})
+					}
 				}
 				if cd.Owner != buyer {
 					out = append(out, Finding{"C20", "C20/purchase/owner-not-buyer", fmt.Sprintf("block %d: after the purchase of %s by %s its owner is %s", blk.H, n, buyer, cd.Owner)})
@@ -311,7 +344,7 @@ func C20(blk *hist.Block) []Finding {
 					out = append(out, Finding{"COUNT", "observed:renew", ""})
 					price := PAmount(rn.p, "buyingPrice")
 					ok := false
-					for _, pp := range pers {
+					for _, pp := range persAt(rn.idx) {
 						if ext := floorDiv(price, pp); ext >= 0 && cd.Expire-pd.Expire == ext {
 							ok = true
 						}
